@@ -550,7 +550,15 @@ def check_checkdm_stub(eps, occ_max, occs):
 
 def _dm_case(rng, n):
     kind = rng.choice(["generic", "degenerate", "zeros", "integer", "closed-shell"])
-    shape = rng.choice(["dense", "dense", "blocks", "diagonal"]) if n >= 2 else rng.choice(["dense", "diagonal"])
+    shape = rng.choice(["dense", "dense", "blocks", "diagonal", "unit-overlap"]) if n >= 2 else rng.choice(["dense", "diagonal"])
+    if shape == "unit-overlap":
+        # orthonormal basis written as an integer or single-precision identity, dense density matrix
+        g = np.random.default_rng(rng.getrandbits(32))
+        q, _ = np.linalg.qr(g.normal(size=(n, n)))
+        _s, _d, occ = _rand_problem(rng, n, kind)
+        d = q @ np.diag(occ) @ q.T
+        eye = rng.choice([np.eye(n, dtype=int), np.eye(n, dtype=np.float32), np.eye(n)])
+        return kind + "/unit-overlap", eye, (d + d.T) / 2, occ
     if shape == "blocks":
         # two non-interacting fragments: overlap and density are block diagonal, so every natural orbital has exact
         # zeros on the other fragment's basis functions (in particular on the first basis function)
@@ -565,7 +573,9 @@ def _dm_case(rng, n):
     if shape == "diagonal":
         # orthonormal basis, density diagonal in it: the natural orbitals are the basis functions themselves
         _s, _d, occ = _rand_problem(rng, n, kind)
-        return kind + "/diagonal", np.eye(n), np.diag(occ), occ
+        # the identity overlap as callers write it: integer or single-precision arrays are legitimate arguments
+        eye = rng.choice([np.eye(n), np.eye(n, dtype=int), np.eye(n, dtype=np.float32)])
+        return kind + "/diagonal", eye, np.diag(occ), occ
     s, d, occ = _rand_problem(rng, n, kind)
     return kind, s, d, occ
 
